@@ -221,6 +221,8 @@ def call_chain(body, op, depth=0, maxdepth=40):
             cur = rv["op"]
         elif rv["k"] in ("ref", "rawptr"):
             cur = {"copy": rv["place"]}
+            if body.kind.startswith(("closure", "coroutine")) and rv["place"]["l"] == 1:
+                return calls, ("upvar", rv["place"])
             if rv["place"]["p"] and any(isinstance(e, dict) and "f" in e for e in rv["place"]["p"]):
                 # keep walking from the base local but remember the field
                 cur = {"copy": {"l": rv["place"]["l"], "p": []}}
